@@ -202,12 +202,91 @@ func readAllWays(text string) (map[string][]control.Paragraph, error) {
 		return nil, errf("Decoder.Decode(&T): %v", err)
 	}
 	out["Decode(&T) then Decode(&[]T)"] = dm
+	// one Paragraph variable, declared once and decoded into paragraph after paragraph (the usual
+	// way of walking an index); it held something before the first call
+	dec4, err := control.NewDecoder(strings.NewReader(text), nil)
+	if err != nil {
+		return nil, errf("NewDecoder: %v", err)
+	}
+	one := control.Paragraph{Order: []string{"Old"}, Values: map[string]string{"Old": "1"}}
+	ov := []control.Paragraph{}
+	for {
+		err := dec4.Decode(&one)
+		if err == io.EOF {
+			break
+		}
+		if err != nil {
+			return nil, errf("Decoder.Decode(&p) into a variable used before: %v", err)
+		}
+		cp := control.Paragraph{Order: append([]string{}, one.Order...), Values: map[string]string{}}
+		for k, v := range one.Values {
+			cp.Values[k] = v
+		}
+		ov = append(ov, cp)
+		if len(ov) > 10000 {
+			return nil, errf("Decode() does not terminate")
+		}
+	}
+	out["Decoder.Decode(&p) loop into one variable"] = ov
+	// a reader that has reported the end goes on reporting it, whatever other readers do meanwhile:
+	// pr2 (at its end) is asked again while two new readers over the same text are read in turn
+	prB, err := control.NewParagraphReader(strings.NewReader(text), nil)
+	if err != nil {
+		return nil, errf("NewParagraphReader: %v", err)
+	}
+	atEnd := func(when string) error {
+		if p, err := pr2.Next(); err != io.EOF || p != nil {
+			return errf("a reader that had reported io.EOF, asked again %s, returned (%v, %v)", when, p, err)
+		}
+		return nil
+	}
+	if err := atEnd("after a second reader was created"); err != nil {
+		return nil, err
+	}
+	if err := atEnd("a second time"); err != nil {
+		return nil, err
+	}
+	prC, err := control.NewParagraphReader(strings.NewReader(text), nil)
+	if err != nil {
+		return nil, errf("NewParagraphReader: %v", err)
+	}
+	var bs, cs []control.Paragraph
+	for doneB, doneC := false, false; !doneB || !doneC; {
+		if !doneB {
+			p, err := prB.Next()
+			if err == io.EOF {
+				doneB = true
+			} else if err != nil {
+				return nil, errf("Next() of the second of three readers: %v", err)
+			} else {
+				bs = append(bs, *p)
+			}
+		}
+		if err := atEnd("while two other readers were being read"); err != nil {
+			return nil, err
+		}
+		if !doneC {
+			p, err := prC.Next()
+			if err == io.EOF {
+				doneC = true
+			} else if err != nil {
+				return nil, errf("Next() of the third of three readers: %v", err)
+			} else {
+				cs = append(cs, *p)
+			}
+		}
+		if len(bs) > 10000 || len(cs) > 10000 {
+			return nil, errf("Next() does not terminate")
+		}
+	}
+	out["Next() loop of a second reader, read in turn with a third"] = bs
+	out["Next() loop of a third reader, read in turn with the second"] = cs
 	return out, nil
 }
 
 var specC07Model = Register(&Spec[DocCase]{
 	Prop: "C07", Name: "model",
-	Rule: "deb822 documents rendered from a model: 0..5 paragraphs of 1..6 uniquely named fields ([A-Za-z0-9][A-Za-z0-9_.+-]*), ':' + 0..3 blanks, first line text (possibly empty; may contain ':' '#' UTF-8) with trailing blanks, 0..6 continuation lines (marker space or tab, then ' .' or freely indented text, trailing blanks), '#' comment lines at every kind of line boundary, 1..3 blank lines between paragraphs, 0..2 before/after, LF or CRLF, final newline present or absent. Oracle: All(), a Next() loop, Unmarshal(&[]T) and a Decoder.Decode(&T) loop (T a struct embedding control.Paragraph, and T = control.Paragraph itself), Unmarshal(&[]*T), Unmarshal into a slice variable that held two elements before, one Next() followed by All(), and one Decode(&T) followed by Decode(&[]T) on the same decoder all return exactly the model paragraphs, and so does All() when the source is a one-byte-at-a-time reader, a half reader or a reader that delivers its last data together with io.EOF: Order = names in file order, value = first line if no continuation else logical lines joined by newline + trailing newline (a kept empty first line is accepted too). Non-trivial: >= 2 paragraphs, a continuation, a comment inside a field, CRLF or no final newline; distinct by text.",
+	Rule: "deb822 documents rendered from a model: 0..5 paragraphs of 1..6 uniquely named fields ([A-Za-z0-9][A-Za-z0-9_.+-]*), ':' + 0..3 blanks, first line text (possibly empty; may contain ':' '#' UTF-8) with trailing blanks, 0..6 continuation lines (marker space or tab, then ' .' or freely indented text, trailing blanks), '#' comment lines at every kind of line boundary, 1..3 blank lines between paragraphs, 0..2 before/after, LF or CRLF, final newline present or absent. Oracle: All(), a Next() loop, Unmarshal(&[]T) and a Decoder.Decode(&T) loop (T a struct embedding control.Paragraph, and T = control.Paragraph itself), Unmarshal(&[]*T), Unmarshal into a slice variable that held two elements before, one Next() followed by All(), one Decode(&T) followed by Decode(&[]T) on the same decoder, a Decode loop into ONE control.Paragraph variable that held something before, and two further readers read in turn while the first - at its end - is asked again and again (io.EOF every time) all return exactly the model paragraphs, and so does All() when the source is a one-byte-at-a-time reader, a half reader or a reader that delivers its last data together with io.EOF: Order = names in file order, value = first line if no continuation else logical lines joined by newline + trailing newline (a kept empty first line is accepted too). Non-trivial: >= 2 paragraphs, a continuation, a comment inside a field, CRLF or no final newline; distinct by text.",
 	Check: func(c DocCase, r *Recorder) error {
 		nt := false
 		for _, f := range c.Feats {
@@ -224,7 +303,7 @@ var specC07Model = Register(&Spec[DocCase]{
 		if err != nil {
 			return errf("well-formed document %q: %v", c.Text, err)
 		}
-		for _, how := range []string{"All()", "Next() loop", "Unmarshal(&[]T)", "Decoder.Decode(&T) loop", "Unmarshal(&[]control.Paragraph)", "Decoder.Decode(&control.Paragraph) loop", "Next() then All()", "Decode(&T) then Decode(&[]T)", "Unmarshal(&[]*T)", "Unmarshal(&[]T) into a slice that held two elements"} {
+		for _, how := range []string{"All()", "Next() loop", "Unmarshal(&[]T)", "Decoder.Decode(&T) loop", "Unmarshal(&[]control.Paragraph)", "Decoder.Decode(&control.Paragraph) loop", "Next() then All()", "Decode(&T) then Decode(&[]T)", "Unmarshal(&[]*T)", "Unmarshal(&[]T) into a slice that held two elements", "Decoder.Decode(&p) loop into one variable", "Next() loop of a second reader, read in turn with a third", "Next() loop of a third reader, read in turn with the second"} {
 			if err := parasMatch(ways[how], c.Want, how); err != nil {
 				return errf("document %q: %v", c.Text, err)
 			}
@@ -367,7 +446,7 @@ func genRawDoc(t *rapid.T) RawDoc {
 
 var specC07Invariant = Register(&Spec[RawDoc]{
 	Prop: "C07", Name: "invariant",
-	Rule: "any input: valid documents, line-level mutations of them (duplicate a field line, delete a line so a continuation is orphaned, swap lines, continuation at the top or right after a blank line), byte-level mutations, token soups. Oracle: every paragraph returned by Next() - also those returned before a later error - has set(keys(Values)) == set(Order) and no duplicate in Order; All() agrees with the Next() loop on the count; a fixed plain document read right afterwards comes out as written. Non-trivial: input yields >= 1 paragraph; distinct by bytes.",
+	Rule:  "any input: valid documents, line-level mutations of them (duplicate a field line, delete a line so a continuation is orphaned, swap lines, continuation at the top or right after a blank line), byte-level mutations, token soups. Oracle: every paragraph returned by Next() - also those returned before a later error - has set(keys(Values)) == set(Order) and no duplicate in Order; All() agrees with the Next() loop on the count; a fixed plain document read right afterwards comes out as written. Non-trivial: input yields >= 1 paragraph; distinct by bytes.",
 	Check: func(c RawDoc, r *Recorder) error { return checkParagraphInvariant(c.B, r) },
 })
 
@@ -438,7 +517,7 @@ var specC07Edge = Register(&Spec[DocCase]{
 		if err != nil {
 			return errf("well-formed document of %d bytes (padding field in front): %v", len(c.Text), err)
 		}
-		for _, how := range []string{"All()", "Next() loop", "Unmarshal(&[]T)", "Decoder.Decode(&T) loop", "Unmarshal(&[]control.Paragraph)", "Decoder.Decode(&control.Paragraph) loop", "Next() then All()", "Decode(&T) then Decode(&[]T)", "Unmarshal(&[]*T)", "Unmarshal(&[]T) into a slice that held two elements"} {
+		for _, how := range []string{"All()", "Next() loop", "Unmarshal(&[]T)", "Decoder.Decode(&T) loop", "Unmarshal(&[]control.Paragraph)", "Decoder.Decode(&control.Paragraph) loop", "Next() then All()", "Decode(&T) then Decode(&[]T)", "Unmarshal(&[]*T)", "Unmarshal(&[]T) into a slice that held two elements", "Decoder.Decode(&p) loop into one variable", "Next() loop of a second reader, read in turn with a third", "Next() loop of a third reader, read in turn with the second"} {
 			if err := parasMatch(ways[how], c.Want, how); err != nil {
 				return errf("document of %d bytes with a %d-byte padding line: %v", len(c.Text), len(c.Want[0].Values["Pad-Field"]), err)
 			}
